@@ -433,7 +433,10 @@ pub fn crash_case<D: Distance>(c: &CrashCase, max_kills: usize, st: &mut CaseSta
         // kill plan
         let mut mix = Mix::new(c.kseed);
         let mut kills: Vec<Kill> = Vec::new();
-        let v_focus = 1 + mix.below(last as u64) as usize;
+        // larger histories: focus on a later version (an earlier process life already consumed temp-file
+        // names / node ids, so a resumed process does not simply repeat the killed one)
+        let big_history = spec.rounds.iter().map(|r| r.ops.len()).sum::<usize>() > 150;
+        let v_focus = if big_history && last >= 2 { 2 + mix.below(last as u64 - 1) as usize } else { 1 + mix.below(last as u64) as usize };
         let total = calls.get(&v_focus).copied().unwrap_or(0);
         let stride = if total <= 160 { 1 } else { total / 120 };
         let mut k = 0;
@@ -568,7 +571,16 @@ pub fn run_c09(tier: Tier) -> i32 {
     let g = c09_gen();
     // a quarter of the histories are larger (hundreds of items, wider vectors): their builds stage tens of
     // kilobytes of nodes in the temp files before a kill arrives
-    let g_big = GenCfg { first_ops: (200, 600), later_ops: (20, 150), id_pool: (250, 700), dims: vec![(1, vec![8, 16, 20])], rounds: (2, 4), ..c09_gen() };
+    let g_big = GenCfg {
+        first_ops: (300, 700),
+        later_ops: (60, 250),
+        id_pool: (350, 800),
+        dims: vec![(1, vec![16, 20, 33])],
+        rounds: (3, 4),
+        split_after: vec![(1, vec![Some(1), Some(2), Some(3)])],
+        n_trees: vec![(1, vec![Some(1), Some(2), Some(3)])],
+        ..c09_gen()
+    };
     let max_kills = tier.pick(90, 400);
     let out = run_generated(
         "C09-crash",
